@@ -43,6 +43,7 @@ class Dm14World:
         self.log = []                 # application-level event log: (t, what, details)
         self.ctx = dict(nbytes=0, read_data=None, accept=True, respond=('ok',), respond_delay=respond_delay)
         self.proceed_calls = []
+        self.inline_responds = 0
         self.notify_calls = []
         self.responds = []
         self.seeds_issued = []
@@ -81,6 +82,11 @@ class Dm14World:
         plan = self.ctx['respond']
         snapshot = dict(self.ctx)
         last = self.proceed_calls[-1] if self.proceed_calls else None
+        if self.ctx.get('respond_inline') and last and last['command'] == C.DM14_READ and plan[0] in ('ok', 'refuse'):
+            # the application answers a read from inside its notify callback (respond() does not block for a read)
+            self.inline_responds += 1
+            self._app_task(snapshot, last, plan)
+            return
         self.sim.after(d, lambda: self.spawn_app(self._app_task, snapshot, last, plan, name='srvapp'))
 
     def spawn_app(self, fn, *a, name='app'):
